@@ -489,6 +489,11 @@ def settle(out, exp, outcome, ver, expr, prefix, op, t, cls, inexact=False, alt=
     if prefix != 'C06/' and rerun is not None and rerun(outcome):
         prefix = 'C06/'
         out.dim('note', 'specific-form-failure-reproduced-with-typed-variables')
+    if what == 'exact-arithmetic-instead-of-double':
+        # XPath 1.0 decimal literals are evaluated exactly (as xs:decimal) instead of as doubles: a
+        # representation choice of the 1.0 parser that the property (typed F&O operands) does not cover
+        out.dim('undecided', 'xpath1-decimal-literal-evaluated-exactly')
+        return True
     out.fail(make_key(prefix, op, t, cls, what),
              {'expr': expr, 'version': ver, 'expected': expect_text(exp), 'got': got})
     return False
